@@ -157,4 +157,127 @@ theorem decisionFlags_nil_iff (c : Cfg) (name : Text) (got : Pkg) (gotSum : Text
   · simp [h]
   · by_cases h2 : got.origin = [] ∨ want.origin = [] <;> simp [h, h2]
 
+/-! ## the decision is the one of the node-graph model of tarfs (`Model/FS.lean`, validated op by op
+against the real tarfs by `corr:fs`) -/
+
+def pkgOfTe (te : FS.TarEntry) : Pkg := { name := te.pkgName, origin := te.pkgOrigin, replaces := te.pkgReplaces }
+def pkgOfHdr (h : FS.Hdr) : Pkg := { name := h.pkgName, origin := h.pkgOrigin, replaces := h.pkgReplaces }
+
+/-- `FS.writeHeaderFile` on an existing package-provided node takes exactly `decideLazy` -/
+theorem writeHeaderFile_refines (c : FS.Cfg) (fs : FS.FS) (h : FS.Hdr) (sum : Text) (pi : Nat) (b : Name)
+    (e : Nat) (got : FS.TarEntry)
+    (hp : FS.parentOf c fs h.name = .ok (pi, b)) (hd : (fs.node pi).dir = true)
+    (hl : fs.lookup pi b = some e) (ht : (fs.node e).te = some got) :
+    (FS.writeHeaderFile c fs h sum).2 =
+      (match decideLazy (pkgOfTe got) got.checksum (pkgOfHdr h) sum with
+       | .keep => .ok false
+       | .overwrite => .ok true
+       | _ => .error .fileConflict) := by
+  rw [decision_table_lazy]
+  unfold FS.writeHeaderFile table
+  simp only [hp, hd, hl, ht, pkgOfTe, pkgOfHdr]
+  by_cases h1 : got.checksum = sum
+  · simp [h1]
+  · by_cases h2 : h.pkgName ∈ got.pkgReplaces
+    · simp [h1, h2]
+    · by_cases h3 : got.pkgName ∈ h.pkgReplaces <;> by_cases h4 : got.pkgOrigin = h.pkgOrigin <;>
+        simp [h1, h2, h3, h4]
+
+/-! ## ties: the statement lists the model mirrors (regenerated from /repo on every run) -/
+
+theorem tie_stmtsWriteHeader : Generated.stmtsWriteHeader = (["parent := filepath.Dir(name)",
+  "base := filepath.Base(name)",
+  "parentAnode, err := m.getNode(parent)",
+  "if err != nil { return false, err }",
+  "if !parentAnode.dir { return false, fmt.Errorf(\"parent is not a directory\") }",
+  "if parentAnode.children == nil { parentAnode.children = map[string]*node{} }",
+  "parentAnode.mu.Lock()",
+  "defer parentAnode.mu.Unlock()",
+  "existing, ok := parentAnode.children[base]",
+  "if !ok { anode := &node{ name: base, mode: te.header.FileInfo().Mode(), dir: false, modTime: te.header.ModTime, linkTarget: te.header.Linkname, xattrs: map[string][]byte{}, hardlinks: map[string]*tar.Header{}, te: &te, } parentAnode.children[base] = anode return true, nil }",
+  "want, got := te, existing.te",
+  "if got == nil { if existing.data == nil { return false, fmt.Errorf(\"conflicting file for %q has no tar entry\", name) } h := sha1.New() h.Write(existing.data) checksum := h.Sum(nil) if bytes.Equal(want.checksum, checksum) { return false, nil } return false, fmt.Errorf(\"conflicting file for %q with checksum %x, existing has checksum %x\", name, want.checksum, checksum) }",
+  "if bytes.Equal(got.checksum, want.checksum) { return false, nil }",
+  "for _, replace := range got.pkg.Replaces { if want.pkg.Name == replace { return false, nil } }",
+  "replaces := false",
+  "for _, replace := range want.pkg.Replaces { if got.pkg.Name == replace { replaces = true break } }",
+  "sameOrigin := got.pkg.Origin == want.pkg.Origin",
+  "if !sameOrigin && !replaces { return false, apk.FileConflictError{ Path: name, Origins: map[string]string{ got.pkg.Name: got.pkg.Origin, want.pkg.Name: want.pkg.Origin, }, } }",
+  "anode := &node{ name: base, mode: te.header.FileInfo().Mode(), dir: false, modTime: te.header.ModTime, linkTarget: te.header.Linkname, xattrs: map[string][]byte{}, hardlinks: map[string]*tar.Header{}, te: &te, }",
+  "parentAnode.children[base] = anode",
+  "return true, nil"] : List String) := by rfl
+
+theorem tie_stmtsWriteHeaderRegLink : Generated.stmtsWriteHeaderRegLink = (["if hdr.Typeflag == tar.TypeSymlink { if target, err := m.Readlink(hdr.Name); err == nil && target == hdr.Linkname { return false, nil } }",
+  "checksum, err := checksumFromHeader(&hdr)",
+  "if err != nil { return false, err }",
+  "if checksum == nil { return false, fmt.Errorf(\"checksum is nil for %s\", hdr.Name) }",
+  "te := tarEntry{ tfs: tfs, header: hdr, checksum: checksum, pkg: pkg, }",
+  "installed, err := m.writeHeader(hdr.Name, te)",
+  "if err != nil { return false, fmt.Errorf(\"writing header for %q: %w\", hdr.Name, err) }",
+  "for k, v := range hdr.PAXRecords { if !strings.HasPrefix(k, xattrTarPAXRecordsPrefix) { continue } attrName := strings.TrimPrefix(k, xattrTarPAXRecordsPrefix) if err := m.SetXattr(hdr.Name, attrName, []byte(v)); err != nil { return false, fmt.Errorf(\"error setting xattr %s on %s: %w\", attrName, hdr.Name, err) } }",
+  "return installed, nil"] : List String) := by rfl
+
+theorem tie_stmtsWriteOneFile : Generated.stmtsWriteOneFile = (["if _, err := a.fs.Stat(header.Name); err == nil { if !allowOverwrite { w := sha1.New() f, err := a.fs.Open(header.Name) if err != nil { return fmt.Errorf(\"unable to open existing file to calculate sum %s: %w\", header.Name, err) } defer f.Close() if _, err := io.Copy(w, f); err != nil { return fmt.Errorf(\"unable to calculate sum of existing file %s: %w\", header.Name, err) } return FileExistsError{Path: header.Name, Sha1: w.Sum(nil)} } if err := a.fs.Remove(header.Name); err != nil { return fmt.Errorf(\"unable to remove existing file %s: %w\", header.Name, err) } }",
+  "f, err := a.fs.OpenFile(header.Name, os.O_CREATE|os.O_EXCL|os.O_WRONLY, header.FileInfo().Mode())",
+  "if err != nil { return fmt.Errorf(\"error creating file %s: %w\", header.Name, err) }",
+  "defer f.Close()",
+  "if _, err := io.CopyN(f, r, header.Size); err != nil { return fmt.Errorf(\"unable to write content for %s: %w\", header.Name, err) }",
+  "return nil"] : List String) := by rfl
+
+theorem tie_stmtsInstallRegularDecision : Generated.stmtsInstallRegularDecision = (["if err := a.writeOneFile(header, r, false); err != nil",
+  "var fileExistsError FileExistsError",
+  "if !errors.As(err, &fileExistsError) || pkg.Origin == \"\" { return false, err }",
+  "if bytes.Equal(checksum, fileExistsError.Sha1) { return false, nil }",
+  "pk, ok := a.installedFiles[header.Name]",
+  "if !ok { return false, fmt.Errorf(\"found existing file we did not install (this should never happen): %s\", header.Name) }",
+  "for _, rep := range pk.Replaces { if pkg.Name == rep { return false, nil } }",
+  "_, isReplaced := replaceMap[pk.Name]",
+  "if pk.Origin != pkg.Origin && !isReplaced { return false, FileConflictError{ Path: header.Name, Origins: map[string]string{ pk.Name: pk.Origin, pkg.Name: pkg.Origin, }, } }",
+  "if err := a.writeOneFile(header, r, true); err != nil { return false, err }"] : List String) := by rfl
+
+theorem tie_stmtsInstallRegularAfter : Generated.stmtsInstallRegularAfter = (["return true, nil"] : List String) := by rfl
+
+theorem tie_stmtsStreamDir : Generated.stmtsStreamDir = (["if fi, err := a.fs.Stat(header.Name); err == nil && fi.Mode()&os.ModeSymlink != 0 { if target, err := a.fs.Readlink(header.Name); err == nil { if fi, err = a.fs.Stat(target); err == nil && fi.IsDir() { break } } }",
+  "if err := a.fs.MkdirAll(header.Name, header.FileInfo().Mode().Perm()); err != nil { return nil, fmt.Errorf(\"error creating directory %s: %w\", header.Name, err) }"] : List String) := by rfl
+
+theorem tie_stmtsStreamReg : Generated.stmtsStreamReg = (["installed, err := a.installRegularFile(header, tr, tmpDir, pkg)",
+  "if err != nil { return nil, err }",
+  "if installed { a.installedFiles[header.Name] = pkg if err := a.fs.Chtimes(header.Name, header.AccessTime, header.ModTime); err != nil { return nil, fmt.Errorf(\"chtimes for %s: %w\", header.Name, err) } }"] : List String) := by rfl
+
+theorem tie_stmtsStreamSymlink : Generated.stmtsStreamSymlink = (["if target, err := a.fs.Readlink(header.Name); err == nil && target == header.Linkname { continue }",
+  "if err := a.fs.Symlink(header.Linkname, header.Name); err != nil { return nil, fmt.Errorf(\"unable to install symlink from %s -> %s: %w\", header.Name, header.Linkname, err) }"] : List String) := by rfl
+
+theorem tie_streamFilesAppend : Generated.streamFilesAppend = "files = append(files, *header)" := by rfl
+
+theorem tie_stmtsLazyLoop : Generated.stmtsLazyLoop = (["installed, err := wh.WriteHeader(file.Header, tf, pkg)",
+  "if err != nil { return nil, err }",
+  "if installed && file.Header.Typeflag == tar.TypeReg { a.installedFiles[file.Header.Name] = pkg }",
+  "files = append(files, file.Header)"] : List String) := by rfl
+
+theorem tie_stmtsPrune : Generated.stmtsPrune = (["owner, ok := a.installedFiles[hdr.Name]",
+  "if !ok { return false }",
+  "return owner != pkg"] : List String) := by rfl
+
+theorem tie_stmtsRecordLoop : Generated.stmtsRecordLoop = (["pkg := infos[i]",
+  "if pkg == nil { continue }",
+  "files = slices.DeleteFunc(files, <closure>)",
+  "if err := a.AddInstalledPackage(pkg, files); err != nil { return nil, fmt.Errorf(\"unable to update installed file for pkg %s: %w\", pkg.Name, err) }"] : List String) := by rfl
+
+theorem tie_stmts_sortTarHeaders : Generated.stmts_sortTarHeaders = (["var ( directoryChildren = map[string][]string{} all = map[string]tar.Header{} )",
+  "for _, header := range headers { cleanedName := filepath.Clean(header.Name) if cleanedName == \".\" { continue } dir := filepath.Dir(cleanedName) directoryChildren[dir] = append(directoryChildren[dir], cleanedName) all[cleanedName] = header }",
+  "var dirEntries = make([]string, 0, len(directoryChildren))",
+  "for dir := range directoryChildren { dirEntries = append(dirEntries, dir) }",
+  "sort.Strings(dirEntries)",
+  "var topLevelDirs = make([]string, 0, len(dirEntries))",
+  "for _, dir := range dirEntries { if filepath.Dir(dir) == \".\" { topLevelDirs = append(topLevelDirs, dir) } }",
+  "sort.Strings(topLevelDirs)",
+  "sorted := sortChildrenTarHeaders(directoryChildren, all, topLevelDirs)",
+  "return sorted"] : List String) := by rfl
+
+theorem tie_stmts_sortChildrenTarHeaders : Generated.stmts_sortChildrenTarHeaders = (["sort.Strings(children)",
+  "var sorted = make([]tar.Header, 0, len(children))",
+  "for _, child := range children { header, ok := all[child] if !ok { continue } if header.Typeflag != tar.TypeDir { sorted = append(sorted, header) } }",
+  "for _, child := range children { header, ok := all[child] if !ok { continue } if header.Typeflag == tar.TypeDir { sorted = append(sorted, header) children, ok := directoryChildren[child] if !ok || len(children) == 0 { continue } sortedChildren := sortChildrenTarHeaders(directoryChildren, all, children) sorted = append(sorted, sortedChildren...) } }",
+  "return sorted"] : List String) := by rfl
+
 end Apko.C07
